@@ -14,6 +14,7 @@ import (
 	"bytes"
 	"fmt"
 	"go/ast"
+	"go/parser"
 	"go/printer"
 	"go/token"
 	"go/types"
@@ -102,6 +103,14 @@ func (in *instrumenter) file(f *ast.File) {
 }
 
 func gateStmt(kind string) ast.Stmt {
+	if i := strings.Index(kind, "\x00"); i >= 0 {
+		// socket operation: the gate is told which connection (expression text after the NUL)
+		e, err := parser.ParseExpr(kind[i+1:])
+		if err == nil {
+			return &ast.ExprStmt{X: &ast.CallExpr{Fun: ast.NewIdent("vrtGateConn"), Args: []ast.Expr{&ast.BasicLit{Kind: token.STRING, Value: fmt.Sprintf("%q", kind[:i])}, e}}}
+		}
+		kind = kind[:i]
+	}
 	return &ast.ExprStmt{X: &ast.CallExpr{Fun: ast.NewIdent("vrtGate"), Args: []ast.Expr{&ast.BasicLit{Kind: token.STRING, Value: fmt.Sprintf("%q", kind)}}}}
 }
 
@@ -342,7 +351,7 @@ func (in *instrumenter) callKind(c *ast.CallExpr) string {
 			return ""
 		case "(*net.TCPConn).Read", "(*net.conn).Read":
 			if in.isTCPConn(f.X) {
-				return "conn.Read"
+				return "conn.Read" + "\x00" + types.ExprString(f.X)
 			}
 		case "(*net.TCPConn).Write", "(*net.conn).Write":
 			if in.isTCPConn(f.X) {
